@@ -1,4 +1,5 @@
 CONSTANTS
+  Before = FALSE
   T = 8
 INIT Init
 NEXT Next
